@@ -1,19 +1,15 @@
-import Gofasta.Base.Iupac
-import Gofasta.Model.Encoding
+import Gofasta.Spec.EncChecks
 /-
 L-enc: finite facts about the *regenerated* tables, decided by the kernel over the whole
 byte range and lifted to statements about arbitrary bytes < 256.
 -/
 namespace Gofasta.Lemmas
-open Gofasta Base Model
+open Gofasta Base Model Spec
 
 theorem all_range_elim {p : Nat → Bool} {n : Nat} (h : (List.range n).all p = true) :
     ∀ i, i < n → p i = true := by
   intro i hi
   exact (List.all_eq_true.1 h) i (List.mem_range.2 hi)
-
-/-- bytes the encoder accepts under gap mode `hard` -/
-def acceptedBytes (hard : Bool) : List Nat := (List.range 256).filter (fun b => enc hard b != 0)
 
 theorem mem_accepted {hard : Bool} {b : Nat} (hb : b < 256) (he : enc hard b ≠ 0) :
     b ∈ acceptedBytes hard := by
@@ -21,9 +17,6 @@ theorem mem_accepted {hard : Bool} {b : Nat} (hb : b < 256) (he : enc hard b ≠
   simp [List.mem_filter, hb, he]
 
 /-! ### acceptance: code 0 exactly for bytes outside the alphabet -/
-def chkAccept (hard : Bool) : Bool :=
-  (List.range 256).all fun b => (enc hard b != 0) == (baseSet hard b).isSome
-
 theorem chkAccept_ok : chkAccept false = true ∧ chkAccept true = true := by decide +kernel
 
 theorem enc_ne_zero_iff (hard : Bool) (b : Nat) (hb : b < 256) :
@@ -35,10 +28,6 @@ theorem enc_ne_zero_iff (hard : Bool) (b : Nat) (hb : b < 256) :
   · intro hs hz; rw [← h] at hs; simp [hz] at hs
 
 /-! ### the disjointness test `(a & b) < 16` means "base sets are disjoint" -/
-def chkDisjoint (hard : Bool) : Bool :=
-  (acceptedBytes hard).all fun a => (acceptedBytes hard).all fun b =>
-    encDiffer (enc hard a) (enc hard b) == disjointSyms hard a b
-
 theorem chkDisjoint_ok : chkDisjoint false = true ∧ chkDisjoint true = true := by decide +kernel
 
 theorem encDiffer_iff (hard : Bool) (a b : Nat) (ha : a < 256) (hb : b < 256)
@@ -50,9 +39,6 @@ theorem encDiffer_iff (hard : Bool) (a b : Nat) (ha : a < 256) (hb : b < 256)
   simpa using h2
 
 /-! ### decoding gives back the upper-case symbol -/
-def chkDec (hard : Bool) : Bool :=
-  (acceptedBytes hard).all fun b => dec (enc hard b) == upper b
-
 theorem chkDec_ok : chkDec false = true ∧ chkDec true = true := by decide +kernel
 
 theorem dec_enc (hard : Bool) (b : Nat) (hb : b < 256) (he : enc hard b ≠ 0) :
@@ -61,9 +47,6 @@ theorem dec_enc (hard : Bool) (b : Nat) (hb : b < 256) (he : enc hard b ≠ 0) :
   simpa using (List.all_eq_true.1 h) b (mem_accepted hb he)
 
 /-! ### case-insensitivity -/
-def chkCase (hard : Bool) : Bool :=
-  (List.range 256).all fun b => enc hard (upper b) == enc hard b
-
 theorem chkCase_ok : chkCase false = true ∧ chkCase true = true := by decide +kernel
 
 theorem enc_upper (hard : Bool) (b : Nat) (hb : b < 256) : enc hard (upper b) = enc hard b := by
@@ -71,9 +54,6 @@ theorem enc_upper (hard : Bool) (b : Nat) (hb : b < 256) : enc hard (upper b) = 
   simpa using all_range_elim h b hb
 
 /-! ### resolved test `a&8 == 8` means A/C/G/T -/
-def chkResolved (hard : Bool) : Bool :=
-  (acceptedBytes hard).all fun b => encResolved (enc hard b) == isACGT b
-
 theorem chkResolved_ok : chkResolved false = true ∧ chkResolved true = true := by decide +kernel
 
 theorem encResolved_iff (hard : Bool) (b : Nat) (hb : b < 256) (he : enc hard b ≠ 0) :
@@ -82,32 +62,12 @@ theorem encResolved_iff (hard : Bool) (b : Nat) (hb : b < 256) (he : enc hard b 
   simpa using (List.all_eq_true.1 h) b (mem_accepted hb he)
 
 /-! ### completeness score: 12 / |base set| (with '-' and '?' counted as any base) -/
-def popcount4 (m : Nat) : Nat := (basesOf m).length
-
-def chkScore : Bool :=
-  (acceptedBytes false).all fun b =>
-    match baseSet false b with
-    | some m => scoreOf (enc false b) * popcount4 m == 12
-    | none => false
-
 theorem chkScore_ok : chkScore = true := by decide +kernel
 
 /-! ### transition tests used by tn93: `a|b == 200` iff {A,G}; `a|b == 56` iff {C,T} (on resolved bases) -/
-def chkTransitions : Bool :=
-  (acceptedBytes false).all fun a => (acceptedBytes false).all fun b =>
-    (!(isACGT a && isACGT b)) ||
-      (((enc false a ||| enc false b) == 200) ==
-          ((upper a == 65 && upper b == 71) || (upper a == 71 && upper b == 65))) &&
-      (((enc false a ||| enc false b) == 56) ==
-          ((upper a == 67 && upper b == 84) || (upper a == 84 && upper b == 67)))
-
 theorem chkTransitions_ok : chkTransitions = true := by decide +kernel
 
 /-! ### equality of codes on resolved bases means same base -/
-def chkSame : Bool :=
-  (acceptedBytes false).all fun a => (acceptedBytes false).all fun b =>
-    (!(isACGT a)) || ((enc false a == enc false b) == (upper a == upper b))
-
 theorem chkSame_ok : chkSame = true := by decide +kernel
 
 end Gofasta.Lemmas
